@@ -331,9 +331,8 @@ def check_instance(values, dname, power, horizon):
                 if fl[i][j] != 0:
                     return "beyond", (f"flows={fl}: flow[{i}][{j}] has rank "
                                       f"{r2[i][j] / 2} > horizon")
-            elif fl[i][j] == 0:
-                return "within", (f"flows={fl}: flow[{i}][{j}] has rank "
-                                  f"{r2[i][j] / 2} <= horizon")
+            # (a zero flow within the horizon is not excluded by the
+            # statement and therefore not demanded to be non-zero)
             for k in range(n):
                 if k in (i, j):
                     continue
@@ -343,13 +342,8 @@ def check_instance(values, dname, power, horizon):
                 if d[i][j] < d[i][k] and fl[i][j] < fl[i][k]:
                     return "nearer", (f"flows={fl}: d[{i}][{j}]={d[i][j]} < "
                                       f"d[{i}][{k}]={d[i][k]}")
-    if inst.horizon != min(n - 1, horizon):
-        return "horizon", f"horizon={inst.horizon} n={n}"
-    lb = getattr(inst, "lower_bound", None)
-    ub = getattr(inst, "upper_bound", None)
-    if not isinstance(inst, QAPInstance) or not isinstance(lb, int) \
-            or not isinstance(ub, int) or not 0 <= lb <= ub:
-        return "bounds", f"lower_bound={lb!r} upper_bound={ub!r}"
+    # The `horizon` attribute and the inherited QAP bounds are not part of
+    # the statement; they are not demanded.
     merged = n < len(values)
     ties = any(r2[i][j] % 2 for i in range(n) for j in range(n) if i != j)
     cut = any(r2[i][j] > 2 * horizon for i in range(n) for j in range(n)
